@@ -2,6 +2,7 @@ package actionlint
 
 import (
 	"fmt"
+	"sort"
 	"strings"
 )
 
@@ -88,8 +89,15 @@ func (rule *RuleWorkflowCall) checkWorkflowCallUsesLocal(call *WorkflowCall) {
 		return
 	}
 
-	// Validate inputs
-	for n, i := range m.Inputs {
+	// Validate inputs. Missing inputs are reported at the same position so they are checked in the
+	// order of input IDs. Iteration order of map is random
+	ids := make([]string, 0, len(m.Inputs))
+	for n := range m.Inputs {
+		ids = append(ids, n)
+	}
+	sort.Strings(ids)
+	for _, n := range ids {
+		i := m.Inputs[n]
 		if i != nil && i.Required {
 			if _, ok := call.Inputs[n]; !ok {
 				rule.Errorf(u.Pos, "input %q is required by %q reusable workflow", i.Name, u.Value)
@@ -116,7 +124,13 @@ func (rule *RuleWorkflowCall) checkWorkflowCallUsesLocal(call *WorkflowCall) {
 
 	// Validate secrets
 	if !call.InheritSecrets {
-		for n, s := range m.Secrets {
+		ids := make([]string, 0, len(m.Secrets))
+		for n := range m.Secrets {
+			ids = append(ids, n)
+		}
+		sort.Strings(ids) // Missing secrets are reported at the same position. See above
+		for _, n := range ids {
+			s := m.Secrets[n]
 			if s.Required {
 				if _, ok := call.Secrets[n]; !ok {
 					rule.Errorf(u.Pos, "secret %q is required by %q reusable workflow", s.Name, u.Value)
